@@ -11,7 +11,9 @@ Decided (necessary conditions, all read from the syntax of client.py and _api.py
       sequence of an item before yielding it and nobody else writes it.
   R3  reconnect budget: the handler that reconnects covers mid-stream transport errors, tolerates
       `max_reconnect_attempts` consecutive drops, and leads back to a fresh request without touching the cursor.
-  R4  server cursor chain: request parameter -> subscribe_events unchanged; emitted id is the sequence of the
+  R4  server cursor chain: request parameter -> subscribe_events unchanged (the handler is interpreted for each kind of
+      numeric cursor x store state; renamed locals / if-else vs conditional expression / split guards read alike; bindings
+      on the copy chain that are not copies must sit under `<cursor> is None`); emitted id is the sequence of the
       stored event whose envelope is the payload of the same frame.
   R5  resume positions: the request inputs whose value flows into the server's replay cursor are inventoried from
       _stream_events (today: query `after_sequence`, header `last-event-id`, the header winning); every entry of the
@@ -55,7 +57,10 @@ EXPLANATION = (
     "the queued item on every path from queue.get to yield and has no other writer. "
     "R3 budget: the first handler that covers a mid-stream transport error reconnects; its body, interpreted for max_reconnect_attempts 0..3, tolerates "
     "that many consecutive drops; the path back to the request writes neither the cursor nor the queue. "
-    "R4 server chain: query parameter -> int -> _resolve_event_stream -> subscribe_events unchanged; the id slot is the stored event's sequence and the data slot "
+    "R4 server chain: query parameter -> int -> _resolve_event_stream -> subscribe_events unchanged; the last link is decided by value, not by variable name: the handler's AST is interpreted (no repo code is run) "
+    "for the numeric cursors -1, 0, 1, last, beyond-last over an empty, a live and a finished event log (store modelled as `sequence > after`), and whenever later events exist or can still arrive the sequence handed to "
+    "subscribe_events must be exactly the number received (0 and -1 are numbers, not `now`); for numbers outside that domain every binding on the copy chain from the parameter to subscribe_events must be a plain copy or "
+    "be made where the cursor is known to be None (`now`, whose resolution is C16's). The id slot is the stored event's sequence and the data slot "
     "the dump of the same stored event's envelope. "
     "R5 resume positions: the request inputs that flow (data dependence through locals of _stream_events; tests and comparisons are not followed) into the cursor handed to _resolve_event_stream are "
     "inventoried (query `after_sequence` and header `last-event-id` today); every entry of the `params=`/`headers=` mappings of the client's stream request (dict literals, `**` spreads, named mappings with "
@@ -1052,20 +1057,28 @@ def run(chk) -> None:
     if len(subs) != 1:
         raise AnchorError("C17.R4: `_resolve_event_stream` does not call subscribe_events exactly once")
     sub_after = kwarg(subs[0], "after_sequence", 1)
-    pnames = {p.arg for p in res.args.args + res.args.kwonlyargs}
-    ok_sub = isinstance(sub_after, ast.Name) and sub_after.id in pnames and sub_after.id == "after_sequence"
+    # which parameter of _resolve_event_stream receives the request's cursor: read from the call in _stream_events
+    pall = [p.arg for p in res.args.posonlyargs + res.args.args + res.args.kwonlyargs]
+    P = next((k.arg for k in rcalls[0].keywords if k.value is av), None)
+    if P is None and av in rcalls[0].args:
+        pos = [p.arg for p in res.args.posonlyargs + res.args.args][1:]
+        i = rcalls[0].args.index(av)
+        P = pos[i] if i < len(pos) else None
+    if P is None or P not in pall:
+        raise AnchorError("C17.R4: cannot tell which parameter of `_resolve_event_stream` receives the request's cursor")
+    # (a) evaluation: the handler's AST is interpreted for every numeric cursor kind x store state; what reaches
+    #     subscribe_events must be that number (-1 and 0 are numbers, not `now`; `None` = `now` is C16's business)
+    bad = _subscribe_cursor_failures(res, sm, P)
     links += 1
-    chk.ob("C17.R4", "subscribe_events is called with the handler's after_sequence parameter", ok_sub, m=sm, node=subs[0], fn=enclosing_function(subs[0]), instance="subscribe-cursor",
-           reason=f"after_sequence argument is `{ast.unparse(sub_after) if sub_after is not None else 'missing (store default: replay from the start)'}`")
-    if ok_sub:
-        rcfg = CFG(res)
-        for a in ast.walk(res):
-            tg = a.targets if isinstance(a, ast.Assign) else [a.target] if isinstance(a, (ast.AnnAssign, ast.AugAssign)) else []
-            if any(isinstance(t, ast.Name) and t.id == sub_after.id for t in tg) and enclosing_function(a) is res:
-                links += 1
-                guarded = any(has_fact(facts_at(rcfg, n), f"{sub_after.id} is None") for n in rcfg.nodes_of(a))
-                chk.ob("C17.R4", f"`{sub_after.id}` is re-assigned only to resolve the `now` cursor (under `{sub_after.id} is None`)", guarded, m=sm, node=a, fn=res, instance="now-resolution",
-                       reason="a numeric cursor from the client is overwritten")
+    chk.ob("C17.R4", f"for every numeric `{P}` (-1, 0, 1, last, beyond last; interpreted over an empty / live / finished event log) the handler subscribes from exactly that number whenever later events exist or can still arrive",
+           not bad, m=sm, node=subs[0], fn=enclosing_function(subs[0]), instance="subscribe-cursor", reason=bad[0] if bad else "")
+    # (b) dependence, for the numbers the finite domain does not contain: every binding of a variable that carries the
+    #     parameter towards subscribe_events is either a plain copy of it or made where the cursor is known to be `now`
+    if sub_after is not None:
+        for a, arm, guarded in _cursor_rebinds(res, sub_after, subs[0], P):
+            links += 1
+            chk.ob("C17.R4", f"the cursor handed to subscribe_events is bound to something other than the client's number (`{ast.unparse(arm)[:50]}`) only to resolve the `now` cursor (where `{P}` is known to be None)", guarded,
+                   m=sm, node=a, fn=enclosing_function(a) if not isinstance(a, FuncNode) else a, instance="now-resolution", reason="a numeric cursor from the client can be replaced")
     # producer tuple and the frame's slots
     gens2 = [f for f in ast.walk(res) if isinstance(f, FuncNode) and f is not res and any(x is subs[0] for x in ast.walk(f))]
     if not gens2:
@@ -1150,6 +1163,190 @@ def run(chk) -> None:
 
     # ------------------------------------------------------------------ fixture: planted positives must be reported
     _fixture_selfcheck(chk)
+
+
+# ============================================================================ R4 helpers: the cursor the subscription starts from
+
+_TERMINAL_STATUSES = {"completed", "failed", "cancelled"}
+
+
+class _ResolveSim(Interp):
+    """Interpreter for `_resolve_event_stream`: nested (async) defs are closures; calling a nested generator function gives a
+    suspended generator (nothing of its body runs until it is iterated, and it then sees the enclosing variables as they are at
+    that time, like Python's late-binding closures); a name that is not a local is looked up among the module's own top-level assignments."""
+
+    def __init__(self, env, hooks, tree):
+        super().__init__(env, hooks)
+        self.tree = tree
+
+    def exec(self, s, env):
+        if isinstance(s, FuncNode):
+            env[s.name] = ("__fn__", s, env)
+            return
+        super().exec(s, env)
+
+    def e_Name(self, e, env):
+        try:
+            return super().e_Name(e, env)
+        except Unsupported:
+            vals = [st.value for st in self.tree.body if isinstance(st, (ast.Assign, ast.AnnAssign)) and st.value is not None
+                    and any(isinstance(t, ast.Name) and t.id == e.id for t in (st.targets if isinstance(st, ast.Assign) else [st.target]))]
+            if len(vals) != 1:
+                raise
+            return self.eval(vals[0], dict(self.globals))
+
+    def apply(self, f, args, kw):
+        if isinstance(f, tuple) and f and f[0] == "__fn__" and any(isinstance(y, (ast.Yield, ast.YieldFrom)) and enclosing_function(y) is f[1] for y in ast.walk(f[1])):
+            names = [p.arg for p in f[1].args.args]
+            return ("__gen__", f[1], f[2], {**dict(zip(names, args)), **kw})
+        return super().apply(f, args, kw)
+
+
+def _resolve_once(res: ast.AST, mod, P: str, log: list[tuple[int, bool]], status: str, cursor) -> tuple:
+    """Interpret the handler once.  Model (trusted, C16): the store holds one handler (run `r`, the given status) and the given
+    event log [(sequence, is terminal event)]; query_events returns the events after the given sequence (all for None);
+    subscribe_events records the sequence it is asked to start after.  Result: ("sub", [cursors subscribed from]) |
+    ("none",) | ("raised", name)."""
+    seen: list = []
+    events = [Record("StoredEvent", run_id="r", sequence=q, _terminal=t,
+                     event=Record("EventEnvelopeWithMetadata", type="StopEvent" if t else "Event", types=None, qualified_name="q", value={})) for q, t in log]
+    handler = Record("PersistentHandler", handler_id="h", run_id="r", status=status, workflow_name="w")
+
+    def query_events(run_id, after_sequence=None, limit=None):
+        out = [e for e in events if run_id == "r" and (after_sequence is None or e.sequence > after_sequence)]
+        return list(out if limit is None else out[:limit])
+
+    def subscribe_events(run_id, after_sequence=-1):
+        seen.append(after_sequence)
+        return []
+
+    def is_terminal_event(ev):
+        return bool(ev._terminal)
+
+    store = Record("WorkflowStore", query=lambda q: [handler], query_events=query_events, subscribe_events=subscribe_events, _is_terminal_event=is_terminal_event)
+    api = Record("_WorkflowAPI", _service=Record("WorkflowService", store=store, _store=store), _store=store, store=store)
+    hooks = {
+        "HandlerQuery": lambda *a, **k: Record("HandlerQuery", **k),
+        "is_terminal_status": lambda st: st in _TERMINAL_STATUSES,
+        "AbstractWorkflowStore._is_terminal_event": is_terminal_event,
+    }
+    genv = {"InternalDispatchEvent": Record("type", __name__="InternalDispatchEvent"), "AbstractWorkflowStore": Record("type", _is_terminal_event=is_terminal_event)}
+    args: dict[str, object] = {}
+    a = res.args
+    for i, p in enumerate(a.posonlyargs + a.args + a.kwonlyargs):
+        ann = ast.unparse(p.annotation) if p.annotation is not None else ""
+        if i == 0 and p.arg == "self":
+            args[p.arg] = api
+        elif p.arg == P:
+            args[p.arg] = cursor
+        elif ann == "bool":
+            args[p.arg] = True  # include_internal / include_qualified_name: nothing is filtered
+        elif ann == "str":
+            args[p.arg] = "h"
+    sim = _ResolveSim(genv, hooks, mod.tree)
+    try:
+        out = sim.call_function(res, args)
+        if isinstance(out, tuple) and out and out[0] == "__gen__":
+            _, gfn, cenv, gargs = out
+            _ResolveSim(cenv, hooks, mod.tree).call_generator(gfn, gargs)
+            return ("sub", seen)
+        if out is None:
+            return ("none",) if not seen else ("sub", seen)
+    except Raised as r:
+        return ("raised", r.name)
+    except Unsupported as u:
+        raise AnchorError(f"C17.R4: `_resolve_event_stream` cannot be interpreted ({u}); the cursor its subscription starts from is not decided")
+    raise AnchorError(f"C17.R4: `_resolve_event_stream` returns something that is neither None nor a call of its nested generator ({out!r:.60})")
+
+
+def _subscribe_cursor_failures(res: ast.AST, mod, P: str) -> list[str]:
+    states = [
+        ("a live run with no events yet", [], "running"),
+        ("a live run with events 0..3", [(0, False), (1, False), (2, False), (3, False)], "running"),
+        ("a finished run (events 0..3, the last terminal, status still running)", [(0, False), (1, False), (2, False), (3, True)], "running"),
+        ("a finished run (events 0..3, the last terminal, status completed)", [(0, False), (1, False), (2, False), (3, True)], "completed"),
+    ]
+    bad: list[str] = []
+    for what, log, status in states:
+        live = status not in _TERMINAL_STATUSES and not (log and log[-1][1])
+        for cursor in (-1, 0, 1, 3, 7):
+            later = [q for q, _t in log if q > cursor]
+            got = _resolve_once(res, mod, P, log, status, cursor)
+            if got == ("sub", [cursor]):
+                continue
+            if got == ("none",) and not live and not later:
+                continue  # everything consumed and nothing can follow: no stream (204)
+            said = "no subscription is made" if got == ("none",) else f"the handler raises {got[1]}" if got[0] == "raised" else f"subscribe_events is asked to start after {got[1]!r}"
+            bad.append(f"{P}={cursor} on {what}: {said}; events {later if later else 'yet to come'} are owed to the client from cursor {cursor}")
+    return bad
+
+
+def _cursor_rebinds(res: ast.AST, E: ast.AST, call: ast.AST, P: str) -> list[tuple[ast.AST, ast.AST, bool]]:
+    """(site, value arm, guarded) for every binding on the may-dependence chain parameter -> subscribe_events whose value is not a
+    plain copy of a variable that carries the parameter.  `carriers` = P and every local some binding copies a carrier into
+    (conditional expressions are read arm by arm, each arm under the facts of its test).  Judged: every non-copy arm bound to a
+    carrier, and the argument expression itself when it is not a carrier.  guarded = a carrier is known to be None there."""
+    binds: list[tuple[str, ast.AST, ast.AST]] = []
+    for a in ast.walk(res):
+        if isinstance(a, ast.Assign):
+            tgs, v = a.targets, a.value
+        elif isinstance(a, (ast.AnnAssign, ast.AugAssign)) and a.value is not None:
+            tgs, v = [a.target], (a.value if isinstance(a, ast.AnnAssign) else a)
+        elif isinstance(a, ast.NamedExpr):
+            tgs, v = [a.target], a.value
+        else:
+            continue
+        for t in tgs:
+            for n in ast.walk(t):
+                if isinstance(n, ast.Name):
+                    binds.append((n.id, v if isinstance(t, ast.Name) else a, a))
+
+    def arms(v: ast.AST, facts: frozenset) -> list[tuple[ast.AST, frozenset]]:
+        if isinstance(v, ast.IfExp):
+            return arms(v.body, facts | frozenset(atoms(v.test, True))) + arms(v.orelse, facts | frozenset(atoms(v.test, False)))
+        return [(v, facts)]
+
+    carriers = {P}
+    grew = True
+    while grew:
+        grew = False
+        for name, v, _a in binds:
+            if name not in carriers and any(isinstance(x, ast.Name) and x.id in carriers for x, _f in arms(v, frozenset())):
+                carriers.add(name)
+                grew = True
+    cfgs: dict[int, CFG] = {}
+
+    def facts_of(site: ast.AST) -> set:
+        fn = enclosing_function(site)
+        st = site if isinstance(site, ast.stmt) else enclosing_stmt(site)
+        if fn is None or st is None:
+            return set()
+        cfg = cfgs.setdefault(id(fn), CFG(fn))
+        ns = cfg.nodes_of(st)
+        out = None
+        for n in ns:
+            f = facts_at(cfg, n)
+            out = f if out is None else out & f
+        return out or set()
+
+    def now_known(facts: set) -> bool:
+        return any(has_fact(facts, f"{x} is None") for x in carriers)
+
+    out: list[tuple[ast.AST, ast.AST, bool]] = []
+    for name, v, a in binds:
+        if name not in carriers:
+            continue
+        base = facts_of(a)
+        for arm, f in arms(v, frozenset()):
+            if isinstance(arm, ast.Name) and arm.id in carriers:
+                continue
+            out.append((a, arm, now_known(base | set(f))))
+    base = facts_of(call)
+    for arm, f in arms(E, frozenset()):
+        if isinstance(arm, ast.Name) and arm.id in carriers:
+            continue
+        out.append((call, arm, now_known(base | set(f))))
+    return out
 
 
 # ============================================================================ R5 helpers: resume positions
@@ -1513,6 +1710,9 @@ _CLASSIFIER = (
 _FIELD_CONSTS = ("_QueueItem = _QueuedEvent | _QueuedError | _QueuedDone\n", '_QueueItem = _QueuedEvent | _QueuedError | _QueuedDone\n\n_ID_FIELD = "id:"\n_DATA_FIELD = "data:"\n')
 
 
+_NOW = "        if after_sequence is None:\n            all_current = await store.query_events(run_id)\n            after_sequence = all_current[-1].sequence if all_current else -1\n"
+_REMAINING = "        remaining_events = await store.query_events(\n            run_id, after_sequence=after_sequence\n        )\n"
+_SUBSCRIBE = "                run_id,\n                after_sequence=after_sequence,  # type: ignore[arg-type]\n"
 _FRAME_YIELDS = '                    if sse:\n                        yield f"id: {sequence}\\ndata: {payload}\\n\\n"\n                    else:\n                        yield f"{payload}\\n"\n'
 
 
@@ -1615,6 +1815,28 @@ TWINS = [
     Twin("subscribe forgets the cursor", _S, "                run_id,\n                after_sequence=after_sequence,  # type: ignore[arg-type]\n", "                run_id,\n", "C17.R4"),
     Twin("server shifts the cursor", _S, "                after_sequence = int(after_sequence_str)\n", "                after_sequence = int(after_sequence_str) + 1\n", "C17.R4"),
     Twin("id is a running counter, not the stored sequence", _S, "                yield stored_event.sequence, envelope\n", "                yield after_sequence + 1, envelope\n", "C17.R4"),
+    Twin("cursor 0 is falsy: `or` resolves it like `now`", _S, *_multi(_S, [
+        (_NOW, "        latest = await store.query_events(run_id)\n        cursor = after_sequence or (latest[-1].sequence if latest else -1)\n"),
+        (_REMAINING, "        remaining_events = await store.query_events(run_id, after_sequence=cursor)\n"),
+        (_SUBSCRIBE, "                run_id, after_sequence=cursor\n")]), "C17.R4"),
+    Twin("negative cursor resolved like `now` (start-from-the-beginning -1 skips the history)", _S, "        if after_sequence is None:\n            all_current = await store.query_events(run_id)\n",
+         "        if after_sequence is None or after_sequence < 0:\n            all_current = await store.query_events(run_id)\n", "C17.R4"),
+    Twin("renamed local clamps the cursor", _S, *_multi(_S, [
+        (_REMAINING, "        resume_after = max(after_sequence, 0)\n        remaining_events = await store.query_events(run_id, after_sequence=resume_after)\n"),
+        (_SUBSCRIBE, "                run_id, after_sequence=resume_after\n")]), "C17.R4"),
+    Twin("a particular number is replaced (outside the interpreted domain: dependence)", _S, "        # Check if already fully consumed\n        remaining_events = await store.query_events(\n",
+         "        if after_sequence == 1000:\n            after_sequence = 0\n        # Check if already fully consumed\n        remaining_events = await store.query_events(\n", "C17.R4"),
+    Twin("benign: parameter left alone, new local bound by if/else (copy arm first)", _S, *_multi(_S, [
+        (_NOW, "        resume_after: int\n        if after_sequence is not None:\n            resume_after = after_sequence\n        else:\n            all_current = await store.query_events(run_id)\n"
+               "            if all_current:\n                resume_after = all_current[-1].sequence\n            else:\n                resume_after = -1\n"),
+        (_REMAINING, "        remaining_events = await store.query_events(run_id, after_sequence=resume_after)\n"),
+        (_SUBSCRIBE, "                run_id, after_sequence=resume_after\n")]), None),
+    Twin("benign: cursor chosen by a conditional expression at the call, completion test as two guards", _S, *_multi(_S, [
+        (_NOW, "        latest = await store.query_events(run_id)\n        newest = latest[-1].sequence if latest else -1\n"),
+        (_REMAINING, "        remaining_events = await store.query_events(run_id, after_sequence=newest if after_sequence is None else after_sequence)\n"),
+        ("            run_is_complete = is_terminal_status(persistent.status) or (\n                bool(all_events)\n                and AbstractWorkflowStore._is_terminal_event(all_events[-1])\n            )\n            if run_is_complete:\n                return None\n",
+         "            if is_terminal_status(persistent.status):\n                return None\n            if all_events and AbstractWorkflowStore._is_terminal_event(all_events[-1]):\n                return None\n"),
+        (_SUBSCRIBE, "                run_id, after_sequence=after_sequence if after_sequence is not None else newest\n")]), None),
     Twin("benign: local for the stored sequence", _S, "                yield stored_event.sequence, envelope\n", "                seq = stored_event.sequence\n                yield seq, envelope\n", None),
     Twin("benign: extra keyword on the JSON writer", _S, "payload = envelope.model_dump_json().translate(", "payload = envelope.model_dump_json(by_alias=False).translate(", None),
     # R5 resume positions
